@@ -36,6 +36,7 @@ func c02Tree(safe bool) gen.TreeCfg {
 	t.MaxDepth = 2
 	t.MaxWidth = 3
 	t.WideP = 0
+	t.BigP = 0.03
 	return t
 }
 
